@@ -23,17 +23,21 @@ DRIVER = "dm_dfrows"
 LEAN_MODULES = ["DaskModel.Props.C42"]
 CASE_TIMEOUT_S = 60
 LEVEL_TEXT = (
-    "Proved in Lean (structure only): schema_commutes — for the modelled expression classes the lazy schema metaOf (kind of "
-    "object DataFrame/Series/scalar, column names and order), computed without data, equals the schema of the computed "
-    "object; schema_of_partitions — every partition has the schema of the whole; optimizer_keeps_schema — steps accepted by "
-    "the C43 checker keep it. dtypes, index name/dtype and Series names are NOT theorems (pandas type inference): they are "
-    "checked by oracle on random pipelines from the C36/C37/C43/C46 generators and groupby, for the whole result and each "
+    "Proved in Lean: schema_commutes — for the modelled expression classes the lazy schema metaOf (kind of object "
+    "DataFrame/Series/scalar, column names and order), computed without data, equals the schema of the computed object; "
+    "schema_of_partitions — every partition has the schema of the whole; optimizer_keeps_schema — steps accepted by the C43 "
+    "checker keep it; dtypeOf_erase / typed_schema_commutes — the TYPED lazy schema (dtypes of the int64/float64/bool "
+    "arithmetic, comparison and boolean subset, composed from the result-dtype table binDType/notDType) refines it. The "
+    "dtype TABLE is pandas' behaviour: it is checked against pandas every run on EMPTY and on non-empty operands (value "
+    "independence is what makes meta-on-empty-frames right), dtypeOf against the real ._meta dtypes of logical and optimised "
+    "expressions. All other dtypes (str, datetime, categorical, nullable), index name/dtype and Series names are NOT theorems: "
+    "oracle checks on random pipelines from the C36/C37/C43/C46 generators and groupby, for the whole result and each "
     "partition separately (exploration strength for that part).")
 LEVEL_NOTE = ("Trusted: Lean kernel; translator from dask expressions to the model AST; pandas as the dtype oracle. The dtype part of "
               "the statement is validated, not proved.")
 TECHNIQUE = "Lean 4 proof of schema commutation for a relational fragment + oracle comparison of ._meta with computed results and partitions"
-ASSUMPTIONS = ["meta of an expression = pandas applied to an empty/fake frame (dask's design); only kind/columns are modelled"]
-
+ASSUMPTIONS = ["meta of an expression = pandas applied to an empty/fake frame (dask's design); kind/columns and the dtypes of the int64/float64/bool arithmetic subset are modelled",
+               "pandas' result dtype of the table's operators does not depend on the values (validated every run: empty vs non-empty operands)"]
 
 def describe(obj):
     """schema of a pandas object / scalar as JSON"""
@@ -220,7 +224,7 @@ def classify_c36(inp):
                 classes.add("meta:udf-on-empty-partition:dtype")
             elif any(st[0] in ("where", "mask") and st[1] == col for st in inp["steps"]) and {m, o} <= {"int64", "float64"}:
                 classes.add("meta:where-mask:value-dependent-dtype")
-            elif col in ("di", "df_") and (m, o) == ("int64", "float64") and "or_filter_binop" in names:
+            elif col in ("di", "df_") and m in ("int64", "int32") and o == "float64" and "or_filter_binop" in names:
                 # x - x[pred]: the rows that the filter drops become NaN -> float64, meta (no rows) says int64
                 classes.add("meta:sub-of-filtered-frame:int64-vs-float64")
             else:
@@ -385,7 +389,7 @@ def generate(ctx):
     for op in ["add", "sub", "mul", "lt", "le", "gt", "ge", "eq", "ne", "and", "or", "not"]:
         yield "dtable", {"op": op}
     streams = []
-    for _ in range(ctx.n(55, 2000)):
+    for _ in range(ctx.n(45, 2000)):
         inp, names = c43.gen_frame(rng)
         inp["prog"] = c43.gen_assign_chain(rng, names) if rng.random() < 0.45 else c43.gen_prog(rng, names, rng.randint(0, 4))
         cur = list(names)
@@ -397,15 +401,15 @@ def generate(ctx):
         if rng.random() < 0.35:
             inp["tail"] = c43.gen_sexpr(rng, cur, 2, rng.random() < 0.5)
         streams.append(("model", inp))
-    for _ in range(ctx.n(50, 1500)):
+    for _ in range(ctx.n(40, 1500)):
         streams.append(("api", {"source": "c36", "inp": c36.gen_api(rng)}))
-    for _ in range(ctx.n(35, 800)):
+    for _ in range(ctx.n(28, 800)):
         streams.append(("api", {"source": "c37", "inp": c37.gen_api(rng)}))
-    for _ in range(ctx.n(30, 600)):
+    for _ in range(ctx.n(24, 600)):
         i = c46.gen_api(rng)
         if i is not None:
             streams.append(("api", {"source": "c46", "inp": i}))
-    for _ in range(ctx.n(25, 400)):
+    for _ in range(ctx.n(20, 400)):
         n = rng.randint(1, 12)
         streams.append(("api", {"source": "groupby", "inp": {
             "c": [rng.choice(["x", "y", "z"]) for _ in range(n)], "v": [rng.randint(-3, 5) for _ in range(n)],
